@@ -104,7 +104,7 @@ func (c *Ctx) ruleBounds() {
 			kind := ""
 			switch x := ins.(type) {
 			case *ssa.IndexAddr:
-				if isRangeIndex(x.Index) {
+				if isRangeIndex(x.Index) || isFullIndexLoopOver(x.Index, x.X) {
 					return
 				}
 				if _, isArr := deref(x.X.Type()).Underlying().(*types.Array); isArr {
